@@ -619,6 +619,7 @@ func Run(o RunOpts, body func()) *Exec {
 		finished: make(chan struct{}), horizon: o.Horizon, boundP: o.BoundP, boundT: o.BoundT, table: o.table,
 		seqMode: o.SeqMode, tracing: o.Trace, sysH: 3, logH: 5, clockH: 9}
 	e.id = execSeq.Add(1)
+	hashCollide = false // hash seam (hash.go): every execution starts with the plain hash function
 	if !cur.CompareAndSwap(nil, e) {
 		panic("vsched: nested Run")
 	}
